@@ -5,7 +5,8 @@ import sys, os, tempfile, shutil, time
 sys.path.insert(0, os.path.dirname(os.path.abspath(__file__)))
 import kani_stage
 args = sys.argv[1:]
-repo = '/repo'; tmo = 120
+repo = '/repo'; tmo = 120; raw = False
+if args[0] == '--raw': raw = True; args = args[1:]
 if args[0] == '--repo': repo = args[1]; args = args[2:]
 if args[0] == '--timeout': tmo = int(args[1]); args = args[2:]
 i = args.index('--')
@@ -21,10 +22,14 @@ try:
     for fl, hl in groups.items():
         out, rc, wall, cmd = kani_stage.run_group(scratch, hl, fl, 12, os.path.join(wd, 'log.txt'), tmo * len(hl) + 300)
         res = kani_stage.parse_output(out)
+        if raw:
+            i = out.find('VERIFICATION RESULT'); print(out[i:i+6000])
         for h in hl:
             r = next((v for k, v in res.items() if k.endswith('::' + h.name)), None)
             v, why = kani_stage.classify(h, r)
             print(f"{h.name:45s} {v:10s} {(r or {}).get('time_s')} {why[:300]}")
+            for fc in (r or {}).get('failed_checks', []):
+                print('      ', fc['desc'][:100], '@', fc['file'][-60:], fc['line'])
         if not res:
             print(out[-3000:])
 finally:
